@@ -1,4 +1,4 @@
-/* C05 — a connection's end removes every trace of the peer and disturbs nobody else.
+/* C05 - a connection's end removes every trace of the peer and disturbs nobody else.
  * Table of victim protocol states x endings x moments x transports; the victim's consequences are computed from the
  * state and checked on the bystanders' connections, followed by a probe suffix and resource comparison with the
  * situation before the victim connected. */
